@@ -101,7 +101,14 @@ var errErrorInMessageHandler = StringValue("error in error handling")
 // error.
 func (t *Thread) RunContinuation(c Cont) (err error) {
 	t.runContinuationDepth++
-	defer func() { t.runContinuationDepth-- }()
+	// A nested run (e.g. of a metamethod) must leave the thread's current
+	// continuation as it found it: the code that made the nested call goes on
+	// running and uses it as the parent of further nested calls.
+	prevCont := t.currentCont
+	defer func() {
+		t.runContinuationDepth--
+		t.currentCont = prevCont
+	}()
 	if t.runContinuationDepth > maxRunContinuationDepth {
 		return errors.New("stack overflow")
 	}
